@@ -92,6 +92,13 @@ DIALECT_PROBES = [
      "src": "package p\n\nfunc F(a int) int {\n\tswitch {\n\tdefault:\n\t\treturn 0\n\tcase a > 0:\n\t\treturn 1\n\tcase a > 1:\n\t\treturn 2\n\t}\n}\n"},
     {"name": "switch-early-default-with-fallthrough", "func": "F", "args": [[5]],
      "src": "package p\n\nfunc F(a int) int {\n\ts := 0\n\tswitch a {\n\tcase 5:\n\t\ts += 1\n\tdefault:\n\t\ts += 10\n\t\tfallthrough\n\tcase 7:\n\t\ts += 100\n\t}\n\treturn s\n}\n"},
+    # repaired by a86edd2 (a global used only in one of these positions was taken for unused, its initialisation dropped)
+    {"name": "global-used-only-as-map-literal-key", "func": "F", "args": [[]],
+     "src": "package p\n\nvar k = 5\n\nfunc F() int {\n\tm := map[int]int{k: 7}\n\treturn m[5]\n}\n"},
+    {"name": "global-used-only-as-defer-argument", "func": "F", "args": [[]],
+     "src": "package p\n\nvar g = 9\n\nvar out int\n\nfunc set(x int) {\n\tout = x\n}\n\nfunc f() {\n\tdefer set(g)\n}\n\nfunc F() int {\n\tf()\n\treturn out\n}\n"},
+    {"name": "global-used-only-under-an-index", "func": "F", "args": [[]],
+     "src": "package p\n\ntype T struct {\n\tX int\n}\n\nvar gs = []T{{X: 4}}\n\nfunc F() int {\n\treturn gs[0].X\n}\n"},
     {"name": "goto-ignored", "func": "F", "args": [[1]],
      "src": "package p\n\nfunc F(a int) int {\n\tif a > 0 {\n\t\tgoto end\n\t}\n\ta = 5\nend:\n\treturn a\n}\n"},
     {"name": "closure-compiles-silently", "func": "F", "args": [[1]],
